@@ -5,6 +5,7 @@ fill_context) with its own option pair; its children are invoked from inside the
 triggers.  What options are in force is *observed through public behaviour only*.
 Pure stdlib + stackscope, Python 3.9 syntax.
 """
+import sys
 import threading
 import warnings
 
@@ -138,6 +139,35 @@ def _elab_fill(m, ctx):
     body(m.node, m.run)
 
 
+def slice_holder(node, run, how):
+    """outermost frame of a slice of the RUNNING stack; its elaborate_frame hook is what runs the node's body"""
+    here = sys._getframe()
+    return slice_inner(node, run, how, here)
+
+
+def slice_inner(node, run, how, outer):
+    me = sys._getframe()
+    kw = dict(with_contexts=node["wc"], recurse_child_tasks=node["rc"])
+    if how == "since":
+        return stackscope.extract_since(outer, **kw)
+    if how == "until_int":
+        return stackscope.extract_until(me, limit=2, **kw)
+    if how == "until_frame":
+        return stackscope.extract_until(me, limit=outer, **kw)
+    if how == "slice":
+        return extract(stackscope.StackSlice(outer=outer, inner=me), **kw)
+    raise AssertionError(how)
+
+
+@stackscope.elaborate_frame.register(slice_holder)
+def _elab_slice_holder(frame, next_inner):
+    lo = frame.pyframe.f_locals
+    body(lo["node"], lo["run"])
+
+
+SLICE_KINDS = ("since", "until_int", "until_frame", "slice")
+
+
 def invoke(node, run):
     outer = expect_now(run)
     kind = node["kind"]
@@ -149,6 +179,19 @@ def invoke(node, run):
                 run.levels_differ = True
             try:
                 st = extract(Item(node, run), with_contexts=node["wc"], recurse_child_tasks=node["rc"])
+                if node.get("boom") == "exc" and st.error is None:
+                    run.bad.append(["exception_in_hook_not_reported", kind])
+            finally:
+                run.stack.pop()
+        elif kind in SLICE_KINDS:
+            # the other public entry points: slices of the running stack take the same two options
+            run.stack.append(mine)
+            if outer is not None and outer != mine:
+                run.levels_differ = True
+            try:
+                st = slice_holder(node, run, kind)
+                if not st.frames or st.frames[0].pyframe.f_code is not slice_holder.__code__:
+                    run.bad.append(["slice_entry_point_lost_its_outer_frame", kind, [f.funcname for f in st.frames][:4]])
                 if node.get("boom") == "exc" and st.error is None:
                     run.bad.append(["exception_in_hook_not_reported", kind])
             finally:
